@@ -21,8 +21,9 @@ class OperandTokenTranslator(AbstractTranslator):
                 MatrixOfCellIdentifiersTokenTranslator
             return MatrixOfCellIdentifiersTokenTranslator.translate(token.matrix, excel, context)
         elif token.pattern:
-            from excel2pycl.src.translators.pattern_token_translator import PatternTokenTranslator
-            return PatternTokenTranslator.translate(token.pattern, excel, context)
+            # A text literal with ? or * is still a text: ="a*b" is a*b and LEFT("x?",5) is x?. Only the places that
+            # match patterns (criteria, SEARCH) give the wildcards their meaning.
+            return repr(token.pattern.value[0][1:-1])
         elif token.literal:
             return token.literal
         elif token.control_construction:
